@@ -152,7 +152,10 @@ def gen_case(rng, mode=None, force=None):
         elif not unmapped and r < 0.08:
             cfg["agg"] = True
     elif mode == "heat" and unmapped:
-        cfg["agg"] = True if rng.random() < 0.7 else "default"
+        r = rng.random()
+        # a heat map shows ONE value per cell: naming only some of the unmapped dimensions still aggregates over all
+        cfg["agg"] = True if r < 0.6 else ("default" if r < 0.8 else
+                                            sorted(rng.sample(unmapped, rng.randint(1, len(unmapped)))))
     if cfg["agg"] is not None:
         cfg["agg_err"] = rng.choice([None, 0.5, 0.0, 1.0, 0.8, "std", "stderr"])
         cfg["agg_method"] = rng.choice([None, None, "median", "mean"])
@@ -332,7 +335,7 @@ class Expect:
         if mode == "hist":
             self.agg = []
             self.binned = list(self.unmapped)
-        elif agg is True or agg == "default":
+        elif agg is True or agg == "default" or mode == "heat":
             self.agg = list(self.unmapped)
         elif agg is None:
             self.agg = []
@@ -1112,8 +1115,9 @@ def spec_expr(cfg, E, iter_dims, edges=None):
         f"mk_mprop {PROP_ID[m['prop']]}%nat {core.natlist(m['dims'])} "
         + ("None" if m["order"] is None else f"(Some {coq_labels(m['order'])})") for m in cfg["maps"]) + "]"
     agg = cfg.get("agg")
-    aggall = mode == "hist" or agg is True or agg == "default"
-    agglist = list(agg) if isinstance(agg, list) else []
+    # (a heat map aggregates over every unmapped dimension whatever subset was named)
+    aggall = mode == "hist" or agg is True or agg == "default" or (mode == "heat" and agg is not None)
+    agglist = list(agg) if (isinstance(agg, list) and not aggall) else []
     it = []
     for nm in iter_dims:
         it.append([names.index(x) for x in nm.split(", ")])
